@@ -102,6 +102,9 @@ pub(crate) struct Node {
     pub observers: RefCell<HashMap<ObserverId, Weak<dyn ErasedObserver>>>,
     pub on_update_handlers: RefCell<Vec<ErasedOnUpdateHandler>>,
     pub graphviz_user_data: RefCell<Option<BoxedDebugData>>,
+    /// verification hook: counts live nodes
+    #[cfg(cormacrelf_incremental_rs_verif)]
+    pub(crate) verif_live: crate::verif::LiveToken,
 }
 
 not_observer_boxed_trait! {
@@ -1671,6 +1674,8 @@ impl Node {
             graphviz_user_data: None.into(),
             cutoff: cutoff.into(),
             is_valid: true.into(),
+            #[cfg(cormacrelf_incremental_rs_verif)]
+            verif_live: crate::verif::LiveToken::new(),
         }
     }
 
@@ -1711,6 +1716,22 @@ impl Node {
     pub(crate) fn verif_children(&self) -> Vec<(i32, NodeRef)> {
         let mut v = vec![];
         self.foreach_child(&mut |ix, child| v.push((ix, child)));
+        v
+    }
+
+    /// verification hook: the inputs the kind holds strong references to, also when the node is invalid
+    #[cfg(cormacrelf_incremental_rs_verif)]
+    pub(crate) fn verif_children_raw(&self) -> Vec<NodeRef> {
+        let was = self.is_valid.replace(true);
+        let mut v = vec![];
+        self.foreach_child(&mut |_ix, child| v.push(child));
+        if let Kind::BindLhsChange { bind } | Kind::BindMain { bind, .. } = &self._kind {
+            v.push(bind.lhs.clone());
+            if let Some(rhs) = bind.rhs.borrow().as_ref() {
+                v.push(rhs.clone());
+            }
+        }
+        self.is_valid.set(was);
         v
     }
 
